@@ -78,6 +78,20 @@ func runC05(c *fw.Case) (o fw.Outcome) {
 		amf = rbytes(r, 2)
 		amf[0] |= 0x80
 	}
+	if c.Idx%16 == 9 {
+		// inputs that READ AS TEXT in some notation (hexadecimal with a 0x prefix, decimal, a keyword, a trailing line end):
+		// RAND as it is, and SQN chosen so that SQN xor AK - the first six octets of AUTN, a KDF parameter - is such text
+		if r.Intn(2) == 0 {
+			copy(rnd, pick(r, "0x"+strings.ToUpper(hexs(rbytes(r, 7))), hexs(rbytes(r, 8)), digits(r, 16), "0123456789abcde\n", "true            "))
+			opc = sec.ComputeOPc(k, op)
+		}
+		_, _, _, ak0, _ := sec.F2345(k, opc, rnd)
+		want := []byte(pick(r, "0x1A2b", "0Xffff", "0x0000", "123456", "true\n\n", "abcdef", "ABCDEF", "65535\n", "\r\n\r\n\r\n", "0b0101", "1e1000"))
+		for i := range sqn {
+			sqn[i] = want[i] ^ ak0[i]
+		}
+		o.Tag("kdf-inputs-read-as-text")
+	}
 	autn := sec.GenerateAUTN(k, opc, rnd, sqn, amf)
 	mcc := digits(r, 3)
 	mnc := digits(r, 2+r.Intn(2))
